@@ -4,6 +4,7 @@ ENGINES = {
     # engine name -> where its harness files go inside the scratch copy
     "attack": {"dir": "internal/zzsim/attack"},
     "stream": {"dir": "internal/zzsim/stream", "common": True},
+    "clock": {"dir": "internal/zzsim/clock"},
 }
 
 ATTACK_REAL = ["lib.Attacker.Attack / attack / hit / Stop (instrumented copy of the working tree)", "net/http.Client on top of the fake transport",
@@ -50,4 +51,11 @@ SPECS = {
             "real": ["NewRoundRobinDecoder, decoders"], "stub": ["readers"],
             "not_simulated": ["report()/encode() over split files: cmd engine (when built)"],
             "assumptions": ["after a read error only the failing input's own remaining records may be missing"]},
+    "C01": {"jobs": [{"engine": "clock", "scenario": "pacer-C01", "race": False, "quick": 24000, "thorough": 4000000}],
+            "rule": "one evaluation = one closed-loop run of a real pacer on a virtual clock: an ideal attacker sleeps exactly as told and releases one hit, with stalls (ns..hours, 0-20% of hits) injected from the tape; 200-3200 hits per run (1 in 400 runs: 1-4 million hits); parameters from realistic ranges (60%) and from the extremes of the integer ranges; non-trivial = more than one pacer call; distinct = distinct event-log hashes (parameters + first 40 pacer answers)",
+            "real": ["ConstantPacer, SinePacer, LinearPacer (Pace and Rate)"], "stub": ["the attacker (ideal follower of the pacer; the real loop's obedience is C04)", "the clock (virtual time.Duration owned by the loop)"],
+            "not_simulated": ["the quantifier over parameter values is served by seeded generation; the simulator contributes the closed loop and the stall histories"],
+            "assumptions": ["schedule S(t) evaluated in float64 (constant pacer: exact big-integer comparisons); parameter sets whose schedule or sine amplitude term exceeds 2^33 hits are skipped and counted (fewer than 20 significant bits below one hit)",
+                            "for sine pacers with infinite/NaN rates (zero time unit), doubly negative rates or negative amplitudes only the absence of a panic is judged",
+                            "linear pacer with a negative slope: the schedule is the integral of max(rate, 0)"]},
 }
